@@ -36,6 +36,9 @@ ALREADY TRIED BY OTHERS - do NOT repeat these mechanisms or close variants of th
 FINAL ANSWER (plain text): the path of the demo file; the exact command to run it and any flags; `git diff --stat` output for your files; a 3-5 line description of the change, which part of the property it breaks, and exactly what is needed for it to manifest; the observed output of the demo with and without the change. If after a serious effort you cannot find a change that passes the whole suite, say so honestly rather than delivering something that fails the suite.
 '''
 steer={}
+# optional steering per property (set from the environment: SEED_STEER_C04="...")
+for k,v in os.environ.items():
+    if k.startswith('SEED_STEER_'): steer[k[len('SEED_STEER_'):]]='\nWHERE TO LOOK THIS TIME: '+v+'\n'
 wave=sys.argv[1]
 os.makedirs('/tmp/seedprompts',exist_ok=True)
 for pid in sys.argv[2:]:
